@@ -256,6 +256,42 @@ def check_phys(prog, noise, ev, rate):
                     lrho = np.outer(lr.ravel(), lr.ravel().conj()) if ls.isket else lr
                     if lrho.shape == rho.shape and np.abs(lrho - rho).max() > 2e-4:
                         out.append((f"C11:v2-state-differs-from-legacy:{noise}", f"{prog}/{ev}/rate={rate} t={t}: max diff {np.abs(lrho - rho).max():.3g}"))
+        # further entry points on the same program (once per program / noise): the older QutipBackend with an EmulatorConfig, and
+        # both backends told to prefer the DEVICE's default noise model (which is then this noise model, the config's own being empty)
+        if ev == "default" and rate == 1.0 and legacy_err is None:
+            import dataclasses
+
+            from pulser.backend.config import EmulatorConfig
+            from pulser_simulation import QutipBackend
+
+            def final_rho(x):
+                m = x.full()
+                return np.outer(m.ravel(), m.ravel().conj()) if x.isket else m
+
+            ref = final_rho(leg.states[-1])
+            runs = {}
+            try:
+                runs["v1-backend"] = lambda: final_rho(QutipBackend(seq, config=EmulatorConfig(noise_model=nm, sampling_rate=rate, evaluation_times="Full")).run().states[-1])
+                if kw:
+                    dseq = seq.switch_device(dataclasses.replace(seq.device, name="W_with_default_noise", default_noise_model=nm))
+                    runs["v1-backend:device-noise"] = lambda: final_rho(QutipBackend(dseq, config=EmulatorConfig(
+                        prefer_device_noise_model=True, sampling_rate=rate, evaluation_times="Full")).run().states[-1])
+
+                    def v2dev():
+                        r = QutipBackendV2(dseq, config=QutipConfig(observables=[StateResult()], prefer_device_noise_model=True, sampling_rate=rate)).run()
+                        return final_rho(r.get_result(StateResult().tag if False else r.get_result_tags()[0], r.get_result_times(r.get_result_tags()[0])[-1]).to_qobj())
+
+                    runs["v2:device-noise"] = v2dev
+            except Exception as e:
+                out.append((f"C11:entry-point-setup-raises:{type(e).__name__}", f"{prog}/{noise}: {e}"[:200]))
+            for label, fn in runs.items():
+                try:
+                    got = fn()
+                except Exception as e:
+                    out.append((f"C11:entry-point-raises:{label}:{type(e).__name__}", f"{prog}/{noise}: {e}"[:200]))
+                    continue
+                if got.shape != ref.shape or np.abs(got - ref).max() > 2e-4:
+                    out.append((f"C11:entry-point-state-differs-from-legacy:{label}:{noise}", f"{prog}: max diff {np.abs(got - ref).max() if got.shape == ref.shape else 'shape'}"))
     return out + [("@phys", "")]
 
 
@@ -591,6 +627,198 @@ def check_legacy_tape(st, eps, epsp, shots, us, fs):
     return out + [("@ltape", "")]
 
 
+# ---- legacy noisy path (NoisyResults): deterministic corners --------------------------------------------------------------
+# QutipEmulator.run() returns sampled NoisyResults as soon as amplitude noise or state-preparation errors are configured.  With
+# eta in {0, 1}, a vanishing amplitude spread and detection-error rates in {0, 1} every bit of every shot is determined, whatever
+# the random draws: badly prepared atoms are never excited, r / h read as 1, epsilon turns every 0 into 1 and epsilon' every 1 into 0.
+def lnoisy_cases(tier):
+    out = []
+    for basis, n, pulse, path, eps, epsp in itertools.product(("ground-rydberg", "digital"), (1, 2), ("pi", "2pi", "idle"),
+                                                               ("eta=1", "amp~0", "eta=1+amp~0"), (0.0, 1.0), (0.0, 1.0)):
+        if pulse == "idle" and basis == "digital":
+            continue  # a sequence that drives nothing addresses no basis: the emulator then works in ground-rydberg
+        out.append(("lnoisy", basis, n, pulse, path, eps, epsp))
+    return out
+
+
+def check_lnoisy(basis, n, pulse, path, eps, epsp):
+    import qutip
+    from pulser import Pulse, Register, Sequence
+    from pulser_simulation import QutipEmulator, SimConfig
+
+    dev = world_device()
+    reg = Register({f"q{i}": (60.0 * i, 0.0) for i in range(n)})
+    seq = Sequence(reg, dev)
+    seq.declare_channel("c", "rydberg_global" if basis == "ground-rydberg" else "raman_global")
+    area = {"pi": math.pi, "2pi": 2 * math.pi, "idle": 0.0}[pulse]
+    if area:
+        seq.add(Pulse.ConstantPulse(500, area / 0.5, 0.0, 0.0), "c")
+    else:
+        seq.delay(500, "c")
+        seq.add(Pulse.ConstantPulse(16, 0.0, 0.0, 0.0), "c")
+    noise = ("SPAM",) + (("amplitude",) if "amp" in path else ())
+    eta = 1.0 if "eta=1" in path else 0.0
+    try:
+        cfg = SimConfig(noise=noise, eta=eta, epsilon=eps, epsilon_prime=epsp, amp_sigma=1e-9 if "amp" in path else 0.05, runs=3, samples_per_run=4,
+                        laser_waist=1e9)  # amplitude noise also applies the beam's Gaussian profile: made flat here
+        sim = QutipEmulator.from_sequence(seq, config=cfg)
+    except Exception as e:
+        return gridx.crash_finding(e, "configuring-the-emulator", f"{basis} {n} {pulse} {path}") or [("@noise-not-constructible", type(e).__name__)]
+    res = sim.run()
+    out = []
+    if type(res).__name__ != "NoisyResults":
+        return [("C11:legacy-noisy-run-not-sampled", f"{path}: run() returned {type(res).__name__}")]
+    excited = (pulse == "pi") and eta == 0.0
+    ideal = 1 if excited else 0
+    bit = (0 if epsp == 1.0 else 1) if ideal == 1 else (1 if eps == 1.0 else 0)
+    want = str(bit) * n
+    tag = f"{basis}:{path}"
+    final = res.sample_final_state() if hasattr(res, "sample_final_state") else None
+    counts = dict(res.sample_final_state(N_samples=12)) if final is not None else {}
+    raw = dict(res[-1].sampling_dist) if hasattr(res[-1], "sampling_dist") else {}
+    got = {k: v for k, v in raw.items() if v > 1e-9}
+    if set(got) != {want}:
+        out.append((f"C11:legacy-noisy-bits:{tag}", f"{n} atom(s), {pulse} pulse, eps={eps}, eps'={epsp}: final distribution {got}, every shot must read {want}"))
+    if res.n_measures != 12:
+        out.append((f"C11:legacy-noisy-shot-count:{tag}", f"{res.n_measures} vs runs x samples_per_run = 12"))
+    # the pseudo-density state and expect() follow the same convention (the state that reads as 1 first in ground-rydberg, second else)
+    pos1 = 0 if basis == "ground-rydberg" else 1
+    for i in range(n):
+        ops = [qutip.qeye(2)] * n
+        ops[i] = qutip.basis(2, pos1).proj()
+        v = float(np.real(res.expect([qutip.tensor(ops)])[0][-1]))
+        if abs(v - bit) > 1e-6:
+            out.append((f"C11:legacy-noisy-expect:{tag}", f"{n} atom(s), {pulse} pulse, eps={eps}, eps'={epsp}: <P_1> on atom {i} = {v}, shots read {want}"))
+            break
+    st = res.get_final_state()
+    d = np.real(np.diag(st.full()))
+    if abs(d.sum() - 1) > 1e-9 or d.min() < -1e-12:
+        out.append((f"C11:legacy-noisy-state-not-physical:{tag}", f"diagonal {d}"))
+    return out + [("@lnoisy", "")]
+
+
+def evset_cases(tier):
+    """Explicit evaluation-time lists containing times closer than one sample (1 ns) to the start, to the end or to one another."""
+    extras = [(), (0.0004,), (0.0001, 0.0009), (0.4996,), (0.2503,), (0.0004, 0.2503, 0.4996), (0.0, 0.0004), (0.00049,), (0.5,)]
+    return [("evset", api, ex) for api in ("legacy", "v2") for ex in extras]
+
+
+def check_evset(api, extra):
+    """One atom, resonant constant drive of 10 rad/us for 500 ns: the state at every requested time t is the Rabi state
+    (P_r = sin^2(5 t)), whatever OTHER times were requested with it."""
+    from pulser import Pulse, Register, Sequence
+    from pulser.backend import StateResult
+    from pulser_simulation import QutipBackendV2, QutipConfig, QutipEmulator
+
+    dev = world_device()
+    seq = Sequence(Register({"q0": (0.0, 0.0)}), dev)
+    seq.declare_channel("c", "rydberg_global")
+    seq.add(Pulse.ConstantPulse(500, 10.0, 0.0, 0.0), "c")
+    base = (0.1, 0.25, 0.5)
+    times = sorted(set(base) | set(extra))
+    out = []
+
+    def p_of(st):
+        v = st.full()
+        return float(abs(v.ravel()[0]) ** 2) if st.isket else float(np.real(v[0, 0]))
+
+    # reference for the final time: the same drive with the base times alone
+    try:
+        if api == "legacy":
+            s0 = QutipEmulator.from_sequence(seq)
+            s0.set_evaluation_times(list(base))
+            ref_final = p_of(s0.run().get_state(0.5, t_tol=1e-9))
+        else:
+            ob0 = StateResult(evaluation_times=[t / 0.5 for t in base])
+            r0 = QutipBackendV2(seq, config=QutipConfig(observables=[ob0])).run()
+            ref_final = p_of(r0.get_result(ob0, r0.get_result_times(ob0)[-1]).to_qobj())
+    except Exception as e:
+        return gridx.crash_finding(e, "running-the-emulator", f"{api} {base}") or [(f"C11:evaluation-time-list-raises:{api}:{type(e).__name__}", f"{base}: {e}"[:220])]
+    try:
+        if api == "legacy":
+            sim = QutipEmulator.from_sequence(seq)
+            sim.set_evaluation_times(list(times))
+            res = sim.run()
+            got = {float(t): res.get_state(float(t), t_tol=1e-9) for t in times}
+        else:
+            ob = StateResult(evaluation_times=[t / 0.5 for t in times])
+            r = QutipBackendV2(seq, config=QutipConfig(observables=[ob])).run()
+            rt = r.get_result_times(ob)
+            got = {}
+            for t in times:
+                m = [x for x in rt if abs(x - t / 0.5) < 1e-9]
+                if not m:
+                    out.append((f"C11:requested-evaluation-time-missing:{api}", f"times {times}: nothing stored for t={t} us (stored {list(rt)[:8]})"))
+                    continue
+                got[t] = r.get_result(ob, m[0]).to_qobj()
+    except Exception as e:
+        return gridx.crash_finding(e, "running-the-emulator", f"{api} {times}") or [(f"C11:evaluation-time-list-raises:{api}:{type(e).__name__}", f"{times}: {e}"[:220])]
+    for t, st in got.items():
+        p = p_of(st)
+        exp = math.sin(5.0 * t) ** 2
+        # the last half sample of a pulse that ends the sequence is interpolated by the emulator: the formula is demanded inside only,
+        # the final time is compared with the run that requested the base times alone
+        if t <= 0.45 and abs(p - exp) > 2e-5:
+            out.append((f"C11:state-at-a-requested-time-depends-on-the-other-times:{api}", f"times {times}: P_r({t} us) = {p:.6f}, Rabi formula {exp:.6f}"))
+            break
+        if t == 0.5 and abs(p - ref_final) > 2e-5:
+            out.append((f"C11:final-state-depends-on-the-other-times:{api}", f"times {times}: P_r(T) = {p:.6f}, with the base times alone {ref_final:.6f}"))
+    return out + [("@evset", "")]
+
+
+
+def lspam_cases(tier):
+    """Legacy state-preparation errors with 0 < eta < 1: WHICH atoms are badly prepared is decided by scripted uniform draws."""
+    out = []
+    for n in (1, 2, 3):
+        for pats in itertools.product(list(itertools.product((0, 1), repeat=n)), repeat=2):
+            if n == 3 and pats[0] != pats[1] and sum(pats[0]) + sum(pats[1]) not in (1, 3):
+                continue
+            out.append(("lspam", n, pats))
+    return out
+
+
+def check_lspam(n, pats):
+    """Two runs; in run k atom i is badly prepared iff pats[k][i].  A pi pulse then excites exactly the well-prepared atoms, so the
+    shots of run k all read the complement of pats[k]; 4 shots per run."""
+    import numpy.random as npr
+    from pulser import Pulse, Register, Sequence
+    from pulser_simulation import QutipEmulator, SimConfig
+
+    dev = world_device()
+    seq = Sequence(Register({f"q{i}": (60.0 * i, 0.0) for i in range(n)}), dev)
+    seq.declare_channel("c", "rydberg_global")
+    seq.add(Pulse.ConstantPulse(500, math.pi / 0.5, 0.0, 0.0), "c")
+    cfg = SimConfig(noise=("SPAM",), eta=0.5, epsilon=0.0, epsilon_prime=0.0, runs=2, samples_per_run=4)
+    sim = QutipEmulator.from_sequence(seq, config=cfg)
+    script = [np.array([0.25 if b else 0.75 for b in pat]) for pat in pats]  # below eta = badly prepared
+    real_uniform = npr.uniform
+    calls = {"k": 0}
+
+    def scripted(low=0.0, high=1.0, size=None):
+        if size == n and calls["k"] < len(script):
+            calls["k"] += 1
+            return script[calls["k"] - 1].copy()
+        return real_uniform(low, high, size)
+
+    npr.uniform = scripted
+    try:
+        res = sim.run()
+    except Exception as e:
+        return gridx.crash_finding(e, "running-the-emulator", f"{n} {pats}") or [(f"C11:legacy-spam-run-raises:{type(e).__name__}", f"{pats}: {e}"[:200])]
+    finally:
+        npr.uniform = real_uniform
+    if calls["k"] != 2:
+        return [("@script-not-consumed", str(calls["k"]))]
+    want = Counter()
+    for pat in pats:
+        want["".join("0" if b else "1" for b in pat)] += 4
+    got = {k: int(round(v * res.n_measures)) for k, v in dict(res[-1].sampling_dist).items() if v > 1e-9}
+    if got != dict(want):
+        return [("C11:legacy-spam-wrong-atoms-badly-prepared", f"{n} atom(s), badly prepared per run {pats}: shots {got}, expected {dict(want)}")]
+    return [("@lspam", "")]
+
+
 def lexpect_cases(tier):
     """CoherentResults.expect with detection errors (the measured pseudo-density state) in every basis, incl. the leakage bases."""
     out = []
@@ -878,6 +1106,12 @@ def worker(case):
             return check_legacy_tape(*case[1:])
         if k == "lexpect":
             return check_lexpect(*case[1:])
+        if k == "lnoisy":
+            return check_lnoisy(*case[1:])
+        if k == "lspam":
+            return check_lspam(*case[1:])
+        if k == "evset":
+            return check_evset(*case[1:])
         if k == "sweep":
             return sweep_case(case[1])
         if k == "phys":
@@ -899,7 +1133,7 @@ def run(tier, seed):
     res = Result("exploration")
     nmax = 1500 if tier == "quick" else 12000
     cases = [("sweep", T) for T in range(4, nmax + 1)]
-    cases += piecewise_cases(tier) + phys_cases(tier) + reduce_cases(tier) + conv_cases(tier) + tape_cases(tier) + legacy_tape_cases(tier) + lexpect_cases(tier) + stoch_cases(tier) + emu_history_cases(tier)
+    cases += piecewise_cases(tier) + phys_cases(tier) + reduce_cases(tier) + conv_cases(tier) + tape_cases(tier) + legacy_tape_cases(tier) + lexpect_cases(tier) + lnoisy_cases(tier) + lspam_cases(tier) + evset_cases(tier) + stoch_cases(tier) + emu_history_cases(tier)
     outs = gridx.run(worker, cases, chunksize=8)
     classes = {}
     for c, r in zip(cases, outs):
